@@ -120,15 +120,23 @@ func allP() []int {
 	return ps
 }
 
-// accepts: the driver's guess whether the server will accept P for this asset (used only to CHOOSE inputs).
+// accepts: the driver's guess whether a server may accept P for this asset (used only to CHOOSE inputs): the period
+// duration is a multiple of the SMALLEST nominal track duration - the coarsest acceptance rule an implementation could
+// use. Values that pass it get the full sweep of instants under every MPD type: where the real server is stricter
+// (e.g. $Number$ templates on an asset with 2.002 s video and 2.000 s audio segments) the request is refused and the
+// event is cheap; where it serves an MPD, the partition / number / bytes clauses judge what is served.
 func accepts(v variant, P int) bool {
 	pd := int64(3600 / P)
+	if pd <= 0 || len(v.segms) == 0 {
+		return false
+	}
+	min := v.segms[0]
 	for _, ms := range v.segms {
-		if pd*1000%ms != 0 {
-			return false
+		if ms < min {
+			min = ms
 		}
 	}
-	return pd > 0
+	return pd*1000%min == 0
 }
 
 func Main(args []string) error {
